@@ -1773,10 +1773,12 @@ func compileLogicalOpExprAux(context *funcContext, reg int, expr ast.Expr, ec *e
 		}
 	} else {
 		reg += compileExpr(context, reg, expr, ecnone(0))
-		if !hasnextcond {
-			code.AddABC(OP_TEST, a, 0, 0^flip, sline(expr))
-		} else {
+		if jumplabel == lb.e && sreg != a {
+			// the jump leaves the whole expression with this operand as its value: it has to
+			// arrive in the destination; a jump to the next operand must not touch the destination
 			code.AddABC(OP_TESTSET, sreg, a, 0^flip, sline(expr))
+		} else {
+			code.AddABC(OP_TEST, a, 0, 0^flip, sline(expr))
 		}
 	}
 	code.AddASbx(OP_JMP, 0, jumplabel, sline(expr))
